@@ -91,12 +91,13 @@ static std::string hex64(uint64_t v) { char b[20]; snprintf(b, sizeof b, "%016ll
 
 int run_mode_b(const RunCfg &cfg, const std::vector<Step> &plan, const std::vector<int> *decisions, std::string &line_out);
 
-static long g_sub_from = 0, g_max_subs = 0;
+static long g_sub_from = 0, g_max_subs = 0, g_fail_at = 0;
 static long one_run(const std::string &prof, uint64_t seed, const JV *replay, Agg &agg, bool print_plan, bool verbose, long sub = -1) {
   g_cur_seed = seed; g_cur_prof = prof; g_cur_sub = sub;
   RunCfg cfg;
   profile_make_cfg(prof, seed, cfg);
   if (sub > 0) cfg.knobs["fail_at"] = sub;
+  if (g_fail_at > 0 && !replay) cfg.knobs["fail_at"] = g_fail_at;
   std::vector<Step> plan;
   if (replay) {
     if (const JV *cj = replay->get("cfg")) cfg.load(*cj);
@@ -138,6 +139,7 @@ static long one_run(const std::string &prof, uint64_t seed, const JV *replay, Ag
   profile_attach(run);
   run.execute();
   alarm(0);
+  if (prof == "C14" && !g_alloc.fail_site.empty()) for (auto &v : run.viol) if (v.prop == "C14") v.detail += " [the failed allocation was in " + g_alloc.fail_site + "]";
   bool nt = profile_nontrivial(run);
   agg.runs++; if (nt) { agg.nontrivial++; agg.shapes.insert(W.shape_hash); }
   agg.virt_us += W.now_us - cfg.t0_us;
@@ -227,6 +229,7 @@ int main(int argc, char **argv) {
     else if (a == "--plan-only") { print_plan = true; plan_only = true; }
     else if (a == "--verbose") verbose = true;
     else if (a == "--sub-from") g_sub_from = atol(nxt().c_str());
+    else if (a == "--fail-at") g_fail_at = atol(nxt().c_str());
     else if (a == "--max-subs") g_max_subs = atol(nxt().c_str());
     else { fprintf(stderr, "unknown arg %s\n", a.c_str()); return 2; }
   }
